@@ -82,9 +82,18 @@ func genC19(r *Rnd, t Tier) *Case {
 	case 10, 11, 12:
 		c := genC18(r, t)
 		c.Sc.Family = "c19adapter"
+		for i := range c.Sc.Adapter.Server {
+			c.Sc.Adapter.Server[i].LateUpload = false // the simulated transport's own background upload would count as lingering
+		}
 		if r.P(0.3) {
 			c.Sc.Adapter.Repeat = 20
 			c.Sc.Adapter.CancelAt = 0
+		}
+		if c.Sc.Adapter.Proto == "http" && r.P(0.1) {
+			// every attempt fails before it reaches the transport: whatever was set up for it must still be released
+			c.Sc.Adapter.Body = BodySeekFails
+			c.Sc.Adapter.BodySize = 64
+			c.Sc.Adapter.Redo = false
 		}
 		return c
 	case 0, 1, 2:
